@@ -418,7 +418,13 @@ class Rewriter:
 
             else:
                 op = getattr(math, opname)
-            return like.context.constant(op(*args), like)
+            try:
+                value = op(*args)
+            except ValueError:
+                # math domain error (sqrt of a negative constant):
+                # leave the expression as it is
+                return
+            return like.context.constant(value, like)
 
     def absolute(self, expr):
         (x,) = expr.operands
